@@ -59,6 +59,81 @@ CHECKS = {
         note="FCFS read strictly (FilterStore getters exempt); filters depend on item fields only"),
 }
 
+CHECKS.update({
+    "C08": dict(
+        technique="runtime monitor: per-element packet ledger over put()/out taps (identity, fields, per-flow order, conservation against the documented discard rule) + recomputation of generator / sink bookkeeping from the tap log",
+        level="exploration", ref="DESIGN.md 4/C08",
+        text="Offline checker over the recorded tap log of random pipelines (chains, fan-in, fan-out through demuxes and switches) of all "
+             "elements: every packet is the same object with unchanged identifying fields, leaves once, in per-flow order, and "
+             "in == out + counted drops + no-route at exhaustion; no exception; DistPacketGenerator law and PacketSink statistics recomputed.",
+        note="discard rules as documented (Port tail drop counted, Wire loss rate, no route); schedulers configured for the flows they see"),
+    "C09": dict(
+        technique="runtime monitor: exact reference Port replayed over the tap log in action order + byte-occupancy shadow at every tap and kernel step + PortMonitor timeline + RED EWMA recurrence / region rules / Azuma bound",
+        level="exploration", ref="DESIGN.md 4/C09",
+        text="Departure instants bit-exact against the FIFO single-server reference; every drop decision against the limit rule with the "
+             "lo/hi waiting count where the service start is unobservable; byte_size shadow; perhop stamps; RED statistically with a "
+             "1e-12 false-alarm budget plus its deterministic regions.",
+        note="arrival-to-idle window admits two waiting counts; RED curve at/above max_threshold read as 'at least max_probability'"),
+    "C10": dict(
+        technique="runtime monitor: delivery-time law D_i = max(a_i + d_i, D_{i-1}) over the tap log with harness-scripted delays; FIFO / exactly-once; Hoeffding band on loss frequency",
+        level="exploration", ref="DESIGN.md 4/C10",
+        text="Entry instants from the put tap, delays from the scripted delay_dist, deliveries from the out recorder; exact on dyadic "
+             "workloads; loss none / all / statistically consistent and lag-1 independent; Cable directions independent.",
+        note="the k-th delay draw belongs to the k-th delivered (or k-th entered) packet; loss decided statistically (budget 1e-12)"),
+    "C11": dict(
+        technique="runtime monitor: exact reference token bucket (earliest conforming instant) + pairwise conformance inequality + peak spacing + colour rules / green-conformance inequality",
+        level="exploration", ref="DESIGN.md 4/C11",
+        text="Departures bit-exact against the reference shaper on dyadic workloads; independent sliding-window conformance "
+             "inequality; two-rate: red exactly, single-bucket colours exactly, green conformance and must-be-green rule.",
+        note="with PIR the committed bucket's evolution is not fixed by the statement; yellow/green decided by inequalities"),
+    "C12": dict(
+        technique="runtime monitor: three taps per scheduler (arrival, send_packet decision, departure) in one action order; time-only work-conservation / duration / no-overlap / exactly-once / FIFO oracle; counter shadow at every tap and step; Monitor timeline",
+        level="exploration", ref="DESIGN.md 4/C12",
+        text="For each of the six schedulers, over bursts, idle gaps and arrivals exactly at transmission ends, with identity, injective "
+             "and many-to-one class maps.", note="decision observed at the public send_packet call; zero decisions => inconclusive"),
+    "C13": dict(
+        technique="runtime monitor: at every SP service decision the shadow waiting set contains no strictly higher priority",
+        level="exploration", ref="DESIGN.md 4/C13",
+        text="Action-ordered shadow of waiting packets; workloads keep several priority levels backlogged.",
+        note="priority table keyed by flow id, positive priorities"),
+    "C14": dict(
+        technique="runtime monitor: stamps recomputed from the observed history (V / F / auxVC recurrences) with candidate worlds for the same-instant reset; min-stamp rule at every decision; static-backlog fairness bound",
+        level="exploration", ref="DESIGN.md 4/C14",
+        text="Reference stamps from the tap log only; a decision is a violation only if every admissible world is contradicted.",
+        note="tie rule enforced only on dyadic workloads; 1e-9 relative tolerance on decimal ones"),
+    "C15": dict(
+        technique="runtime monitor: visit-window rule + per-visit allowance automaton (candidate set) + DRR credit step reference on public deficit snapshots + DRR fairness bound",
+        level="exploration", ref="DESIGN.md 4/C15",
+        text="Some integer number of rounds must explain the public credits between consecutive decisions; credit range; fairness over jointly backlogged periods.",
+        note="pointer parking across idle periods free; residue fork when a class refills during its emptying transmission"),
+    "C16": dict(
+        technique="runtime monitor + fault enumeration: interval-model ACK oracle on exhaustive arrival sequences; bounded-progress oracle under enumerated drop / delay patterns by transmission index",
+        level="fault_enumeration", ref="DESIGN.md 4/C16",
+        text="Sink: all sequences of <= 6 arrivals over 4 segments. Sender: every pattern of <= 2 (quick) / <= 3 (thorough) drops and <= 2 "
+             "extra delays over the first N+4 data and ACK transmissions, Reno and CUBIC; completion within a simulated-time horizon, no exception, also after completion.",
+        note="liveness restated as bounded progress after finitely many faults"),
+    "C17": dict(
+        technique="runtime monitor: reference Reno/CUBIC/RTO state machine stepped on the same scripted ACK / timer history (candidate set), compared with the public state after every event; send-guard and retransmission checks at the output tap",
+        level="exploration", ref="DESIGN.md 4/C17",
+        text="History + executable model; the reference is written from the statement (CUBIC from the Ha/Rhee/Xu pseudo-code with the snapshot's units).",
+        note="further duplicates may or may not retransmit; the send guard is a necessary condition"),
+    "C18": dict(
+        technique="runtime monitor: routing oracles recomputed from tables; hub / splitter identity rules; FatTree structural invariants via networkx; hop-by-hop FIB walk; per-hop taps in a simulated fat tree",
+        level="exploration", ref="DESIGN.md 4/C18",
+        text="Random tables / populations / k / flow sets; end-to-end: every packet seen exactly at its path's nodes in order and at its own sink only.",
+        note="non-empty output lists, non-negative ports"),
+    "C19": dict(
+        technique="runtime monitor: reference timer automaton over the action history of create / stop / restart calls and callback entries",
+        level="exploration", ref="DESIGN.md 4/C19",
+        text="Calls from other processes and from the callback at / around expiry instants; one-shot and auto-restart; scalar and list args.",
+        note="after stop() never again (literal); restart after a fired one-shot is open"),
+    "C20": dict(
+        technique="runtime monitor: virtual wall clock substituted for monotonic/sleep; never-ahead check at every processed occurrence; strict decision model at every step(); tape equality with Environment",
+        level="exploration", ref="DESIGN.md 4/C20",
+        text="Random programs x factors x initial times x strict x adversarial clock scripts (early/late sleeps, burns on the boundary, sync calls).",
+        note="wall time is consumed between kernel steps and inside sleep() only"),
+})
+
 PENDING = {}
 
 
